@@ -327,6 +327,13 @@ class Enumerator:
 
     def s_Assign(self, s, st):
         def k(st2, v):
+            # a mutable display bound to a local keeps its identity (`$lN`), so later stores into it
+            # and uses of it can be related to the variable
+            if isinstance(v, (ast.Dict, ast.List, ast.Set)) and len(s.targets) == 1 and isinstance(s.targets[0], ast.Name) \
+                    and isinstance(s.value, (ast.Dict, ast.List, ast.Set)):
+                ev = Ev("alloc", v, s, st2.fn, {"name": s.targets[0].id})
+                st2 = st2.emit(ev)
+                v = N(f"$l{ev.idx}")
             return self.store_all(list(s.targets), v, st2, s, lambda st3: [(st3, FALL)])
 
         return self.ev(s.value, st, k)
